@@ -24,17 +24,29 @@ type CaseA struct {
 	Src     string              `json:"src"`
 	Classes []string            `json:"classes"`
 	Spell   map[string][]string `json:"spell,omitempty"` // attribute path -> spelling classes used for it
+	Pad     *Pad                `json:"pad,omitempty"`   // file-size class: padding expanded when the case is interpreted
 }
 
 func genA(t *rapid.T) CaseA {
 	o := genOptions(t)
+	padKind := ""
+	if padWanted(t) {
+		padKind = rapid.SampledFrom(padKindsAll).Draw(t, "padkind")
+		o.presence = 100 // content before and after the padding
+	}
 	cfg := genConfig(t, o)
+	removeFor(padKind, &cfg)
 	wild := rapid.SampledFrom([]int{0, 1, 1, 2, 2, 2}).Draw(t, "wild")
 	collide := wild > 0 && rapid.IntRange(0, 99).Draw(t, "collide") >= 94
 	p := newPrinter(t, wild, collide)
 	tree := p.tree(cfg)
 	st := p.style()
-	return CaseA{Cfg: cfg, Src: render(tree, st), Classes: p.classList(), Spell: p.spellMap()}
+	src, tops := renderTop(tree, st)
+	c := CaseA{Cfg: cfg, Src: src, Classes: p.classList(), Spell: p.spellMap()}
+	if padKind != "" {
+		c.Pad = choosePad(t, padKind, src, tops, st.NL)
+	}
+	return c
 }
 
 // priority of spelling classes when naming the class of a failing value: most specific first
@@ -82,7 +94,12 @@ func sigSlug(s string) string {
 }
 
 func comparePositive(prefix string, want profile.HavocConfig, src string, spell map[string][]string, classes []string) *core.Violation {
-	got, err := loadProfile([]byte(src))
+	return comparePositiveBytes(prefix, want, []byte(src), src, spell, classes)
+}
+
+// comparePositiveBytes loads text; src is what is shown in a report (the unpadded profile).
+func comparePositiveBytes(prefix string, want profile.HavocConfig, text []byte, src string, spell map[string][]string, classes []string) *core.Violation {
+	got, err := loadProfile(text)
 	if err != nil {
 		sum, line, all := diagText(err)
 		return core.V(prefix+"|rejected|"+sigSlug(sum)+"|"+topClass(classes), "a valid profile was rejected (line %d): %s\n--- profile ---\n%s", line, all, src)
@@ -113,7 +130,13 @@ func comparePositive(prefix string, want profile.HavocConfig, src string, spell 
 }
 
 func checkA(c CaseA) *core.Violation {
-	return comparePositive("load", c.Cfg, c.Src, c.Spell, c.Classes)
+	if c.Pad == nil {
+		return comparePositive("load", c.Cfg, c.Src, c.Spell, c.Classes)
+	}
+	text, want, _ := expandPad(c.Src, c.Cfg, c.Pad)
+	l := padLabels(c.Pad, len(text))
+	note := fmt.Sprintf("[file of %d bytes: %s padding of kind %s inserted at byte %d / line %d of the text below, mode %s size %d]\n", len(text), l[1], c.Pad.Kind, c.Pad.At, c.Pad.Line, c.Pad.Mode, c.Pad.Size)
+	return comparePositiveBytes("load@"+l[1], want, text, note+c.Src, c.Spell, c.Classes)
 }
 
 func classifyA(c CaseA) core.Class {
@@ -138,7 +161,12 @@ func classifyA(c CaseA) core.Class {
 			key += "0"
 		}
 	}
-	cl.Fingerprint = fmt.Sprintf("blocks=%d|rep=%v|spell=%s", popcount(bits), rep, key)
+	cl.Labels = append(cl.Labels, padLabels(c.Pad, len(c.Src))...)
+	if c.Pad != nil {
+		cl.NonTrivial = true
+		key = "-" // padded cases are told apart by their size class
+	}
+	cl.Fingerprint = fmt.Sprintf("blocks=%d|rep=%v|spell=%s", popcount(bits), rep, key) + padFingerprint(c.Pad)
 	return cl
 }
 
@@ -151,7 +179,7 @@ func TestMain(m *testing.M) {
 func TestC14a(t *testing.T) {
 	core.Run(t, core.Spec[CaseA]{
 		Property: "C14", Sub: "a",
-		Rule: "value of profile.HavocConfig generated from its yaotl struct tags (every optional block present/absent, 0-4 repeated user/Http/Smb/External blocks, lists and maps of 0-5 entries, int64 boundary and random ints, strings built from identifier-like text, quotes, backslashes, $ % { } template markers, control characters incl. NUL, Unicode incl. astral and non-NFC sequences, whole-line texts) printed with generated spelling (per character raw / \\n \\r \\t \\\" \\\\ / \\xHH per UTF-8 byte, $${ %%{, <<ID and <<-ID heredocs, numbers and booleans as literals or strings, exponent/leading-zero forms, bare or quoted labels and map keys, = or : in maps, shuffled items, # // /* */ comments, blank lines, CRLF, BOM, one-line blocks), loaded with profile.NewProfile().SetProfile; oracle: no error and every string/int/bool/list/map/label/repeated block equals the generated value. Non-trivial: some string needs an escape, or a block type is repeated; distinct = (#top-level blocks, repeated?, spelling classes used out of hex/heredoc/flush heredoc/template escape/number-as-string)",
+		Rule: "value of profile.HavocConfig generated from its yaotl struct tags (every optional block present/absent, 0-4 repeated user/Http/Smb/External blocks, lists and maps of 0-5 entries, int64 boundary and random ints, strings built from identifier-like text, quotes, backslashes, $ % { } template markers, control characters incl. NUL, Unicode incl. astral and non-NFC sequences, whole-line texts) printed with generated spelling (per character raw / \\n \\r \\t \\\" \\\\ / \\xHH per UTF-8 byte, $${ %%{, <<ID and <<-ID heredocs, numbers and booleans as literals or strings, exponent/leading-zero forms, bare or quoted labels and map keys, = or : in maps, shuffled items, # // /* */ comments, blank lines, CRLF, BOM, one-line blocks), loaded with profile.NewProfile().SetProfile; oracle: no error and every string/int/bool/list/map/label/repeated block equals the generated value. About 1 case in 150 (quick; 1 in 40 thorough) is padded at a boundary between two top-level blocks to a file size around 4 KiB / 64 KiB / 1 MiB (+-1, +-4 KiB) / 2 MiB / 4-5 MiB - either the whole file has that size or the text after the padding starts exactly at that offset - with comment lines, a block comment, blank lines, or a whole extra top-level block (WebHook with a huge heredoc, Listeners/Http with a huge Headers list, Demon/Binary with a huge ReplaceStrings map); generated blocks stand before and after the padding. Non-trivial: some string needs an escape, or a block type is repeated, or the file is padded; distinct = (#top-level blocks, repeated?, spelling classes used out of hex/heredoc/flush heredoc/template escape/number-as-string) or (file-size bucket, padding kind, mode)",
 		Gen:   genA, Check: checkA, Classify: classifyA,
 		Assumptions: []string{
 			"attribute strings, list elements, map keys and values are compared after Unicode NFC: every cty string is NFC-normalised on entry (go-cty docs/types.md), which is the documented data model of the language; block labels do not pass through cty in the loader (they do in hclwrite), so a label is accepted either byte for byte or NFC-normalised",
